@@ -393,6 +393,11 @@ func (l *PartitionLog) uploadFlush(ctx context.Context, artifact *SegmentArtifac
 	})
 	if err := g.Wait(); err != nil {
 		l.mu.Lock()
+		// Put the drained batches back at the head of the buffer: their offsets
+		// are already assigned and other producers may be waiting in Flush for
+		// them. Dropping them here would let those producers be acknowledged
+		// for records that never reached S3; the next flush retries the upload.
+		l.buffer.Prepend(l.flushingBatches)
 		l.flushing = false
 		l.flushingBatches = nil
 		l.flushCond.Broadcast()
